@@ -434,16 +434,17 @@ class Idempotent(Obligation):
 
     functions = ["pyopenapi_gen.core.utils:NameSanitizer.sanitize_method_name"]
 
-    def __init__(self, n):
-        self.n = n
-        self.name = "lemma/sanitize_idempotent/len=%d" % n
+    def __init__(self, n, fn="sanitize_method_name"):
+        self.n, self.fn = n, fn
+        self.name = "lemma/%s_idempotent/len=%d" % ("sanitize" if fn == "sanitize_method_name" else fn, n)
+        self.functions = ["pyopenapi_gen.core.utils:NameSanitizer.%s" % fn]
         self.bounds = {"string_length": n, "alphabet": "SIGMA(144)"}
 
     def make_inputs(self, e):
         return {"s": mk_sym_str(self.n)}
 
     def _k(self, P, s):
-        f = P.core.utils.NameSanitizer.sanitize_method_name
+        f = getattr(P.core.utils.NameSanitizer, self.fn)
         a = f(s)
         return (a, f(a))
 
@@ -463,7 +464,7 @@ class Idempotent(Obligation):
         return len(a) == len(b) and bool(a == b)
 
     def describe_violation(self, inp, r):
-        return "sanitize_method_name(%r) = %r but sanitising again gives %r" % (inp["s"], r[0], r[1])
+        return "%s(%r) = %r but sanitising again gives %r" % (self.fn, inp["s"], r[0], r[1])
 
 
 class PathVars(Obligation):
@@ -560,8 +561,8 @@ class PathVars(Obligation):
         return "path %r: URL expression %r uses a variable that is not a declared path argument %r (or has unbalanced braces)" % ("/" + inp["path"], r[0], r[1])
 
 
-def mk_idem(n):
-    return Idempotent(n)
+def mk_idem(n, fn="sanitize_method_name"):
+    return Idempotent(n, fn)
 
 
 def mk_pathvars(n):
@@ -617,8 +618,9 @@ def replay(path):
         parts = name.split("/")
         opname = "/".join(parts[1:-1])
         ob = RequestOb(opname, int(parts[-1].split("=")[1]))
-    elif "sanitize_idempotent" in name:
-        ob = Idempotent(len(v["inputs"]["s"]))
+    elif "_idempotent" in name:
+        fn = name.split("/")[1][: -len("_idempotent")]
+        ob = Idempotent(len(v["inputs"]["s"]), "sanitize_method_name" if fn == "sanitize" else fn)
     elif "path_variables" in name:
         ob = PathVars(len(v["inputs"]["path"]))
     else:
